@@ -126,9 +126,11 @@ def main(run):
     res = tlc.check_design('Cache', 'MC_Cache.cfg')
     run.add(states=res.distinct, transitions=res.generated)
     caught = []
-    for m in ('TrustCache', 'ListFromCache', 'SkipTagWhenCached'):
+    for m in ('TrustCache', 'ListFromCache', 'SkipTagWhenCached', 'EmptySkipsVerify'):
         tlc.check_design('Cache', 'mut.cfg', cfg_text=base.replace('Mutant = "none"', 'Mutant = "%s"' % m), expect_violation='CacheTransparent')
         caught.append(m)
+    tlc.check_design('Cache', 'mut.cfg', cfg_text=base.replace('Mutant = "none"', 'Mutant = "SkipUploadKnownFromCache"'), expect_violation='ChunksSafe')
+    caught.append('SkipUploadKnownFromCache')
     tlc.check_design('Cache', 'benign.cfg', cfg_text=base.replace('Mutant = "none"', 'Mutant = "NoStore"'))     # never caching is transparent too
     run.add(cache_model_mutants_caught=caught)
     traces = []
